@@ -96,6 +96,10 @@ where
                     if c == b' ' || c == b'\n' {
                         out.extend_from_slice(b"\\ ");
                     } else {
+                        // arguments of control sequences are user supplied text as well
+                        if c == b'\\' {
+                            out.push(b'\\');
+                        }
                         out.push(c);
                     }
                 }
